@@ -98,6 +98,8 @@ theorem GoodP.map {P Q : EP} : ∀ (v : View) (t : RState), GoodP P v t →
   | «show» c a b _ _ => intro t h _; cases t <;> simp only [GoodP] at h
   | scope sid d kid _ => intro t h _; cases t <;> simp only [GoodP] at h
   | forRows en sel lists row _ => intro t h _; cases t <;> simp only [GoodP] at h
+  | eb kid _ => intro t h _; cases t <;> simp only [GoodP] at h
+  | res c x => intro t h _; cases t <;> simp only [GoodP] at h
   | forKeyed sel lists =>
     intro t h hm
     cases t <;> simp only [GoodP] at h ⊢
@@ -127,6 +129,8 @@ theorem good_iff {K : Nat} {st : St} : ∀ (v : View) (t : RState), Good K st v 
   | «show» c a b _ _ => intro t; cases t <;> simp [Good, GoodP]
   | scope sid d kid _ => intro t; cases t <;> simp [Good, GoodP]
   | forRows en sel lists row _ => intro t; cases t <;> simp [Good, GoodP]
+  | eb kid _ => intro t; cases t <;> simp [Good, GoodP]
+  | res c x => intro t; cases t <;> simp [Good, GoodP]
   | forKeyed sel lists => intro t; cases t <;> simp [Good, GoodP]
 
 
@@ -334,6 +338,10 @@ def viewOf : RState → View
   | .rows _ en sel lists row _ _ => .forRows en sel lists row
   | .rowCons _ _ _ _ => .unit
   | .rowNil => .unit
+  | .errb _ _ _ _ kid => .eb (viewOf kid)
+  | .res _ c x _ _ _ => .res c x
+  | .hooked _ inner => viewOf inner
+  | .errTok _ => .unit
 
 theorem GoodAttrP.viewOf {P : EP} : ∀ {a : Attr} {s : AState}, GoodAttrP P a s → viewOfA s = a := by
   intro a s h
@@ -364,6 +372,8 @@ theorem GoodP.viewOf {P : EP} : ∀ (v : View) (t : RState), GoodP P v t → RVi
   | «show» c a b _ _ => intro t h; cases t <;> simp only [GoodP] at h
   | scope sid d kid _ => intro t h; cases t <;> simp only [GoodP] at h
   | forRows en sel lists row _ => intro t h; cases t <;> simp only [GoodP] at h
+  | eb kid _ => intro t h; cases t <;> simp only [GoodP] at h
+  | res c x => intro t h; cases t <;> simp only [GoodP] at h
   | forKeyed sel lists => intro t h; cases t <;> simp only [GoodP] at h; simp [RView.viewOf, h.1, h.2.1]
 
 /-- states of the views of the theorems' class contain no component-local state -/
@@ -390,6 +400,8 @@ theorem GoodP.locals_nil {P : EP} : ∀ (v : View) (t : RState), GoodP P v t →
   | forKeyed sel lists => intro t h; cases t <;> simp only [GoodP] at h; rfl
   | scope sid d kid _ => intro t h; cases t <;> simp only [GoodP] at h
   | forRows en sel lists row _ => intro t h; cases t <;> simp only [GoodP] at h
+  | eb kid _ => intro t h; cases t <;> simp only [GoodP] at h
+  | res c x => intro t h; cases t <;> simp only [GoodP] at h
 
 theorem dropState_eq {st : St} {t : RState} (h : t.locals = []) : dropState st t = dropAll st t.held := by
   simp only [dropState, h, killAll]
@@ -472,6 +484,8 @@ theorem GoodP.bound {K : Nat} {st : St} : ∀ (v : View) (t : RState), GoodP (Ef
   | «show» c a b _ _ => intro t h _ _; cases t <;> simp only [GoodP] at h
   | scope sid d kid _ => intro t h _ _; cases t <;> simp only [GoodP] at h
   | forRows en sel lists row _ => intro t h _ _; cases t <;> simp only [GoodP] at h
+  | eb kid _ => intro t h _ _; cases t <;> simp only [GoodP] at h
+  | res c x => intro t h _ _; cases t <;> simp only [GoodP] at h
   | forKeyed sel lists =>
     intro t h e he
     cases t <;> simp only [GoodP] at h
@@ -555,6 +569,8 @@ theorem held_ok {K : Nat} {st : St} : ∀ (v : View) (t : RState), GoodP (EffWf 
   | «show» c a b _ _ => intro t h _ _ _ _; cases t <;> simp only [GoodP] at h
   | scope sid d kid _ => intro t h _ _ _ _; cases t <;> simp only [GoodP] at h
   | forRows en sel lists row _ => intro t h _ _ _ _; cases t <;> simp only [GoodP] at h
+  | eb kid _ => intro t h _ _ _ _; cases t <;> simp only [GoodP] at h
+  | res c x => intro t h _ _ _ _; cases t <;> simp only [GoodP] at h
   | forKeyed sel lists =>
     intro t h _ _ z hz
     cases t <;> simp only [GoodP] at h
